@@ -159,6 +159,9 @@ func (w *World) VerifyFunc(fi *FuncInfo, c *Contract, opts VerifyOpts) (res *Uni
 		}
 		p.vars[v] = val
 		p.Assume(ctx.typeInvariant(val))
+		if ctx.SortOf(v.Type()) == "Ref" {
+			ex.bornBefore(p, val.T)
+		}
 		if w.EmittedPaths[fi.Obj.Pkg().Path()] {
 			ex.requestWellFormed(p, val)
 		}
@@ -282,6 +285,9 @@ func (w *World) VerifyFunc(fi *FuncInfo, c *Contract, opts VerifyOpts) (res *Uni
 	if opts.Events {
 		res.Notes = append(res.Notes, fmt.Sprintf("%d paths", len(outs)))
 	}
+	if os.Getenv("GOVC_DEBUG") != "" {
+		fmt.Fprintf(os.Stderr, "DEBUG %s: symbolic execution took %dms, prelude %d bytes\n", key, time.Since(start).Milliseconds(), len(ctx.Prelude()))
+	}
 	res.Obls = ex.discharge(opts)
 	for i := range res.Obls {
 		if res.Obls[i].Kind == "cover" {
@@ -347,6 +353,7 @@ func (ex *Exec) installAxiom(ax *SpecAxiom) {
 	}
 	q := NewPath()
 	var binders []string
+	var axInvs []string
 	for _, b := range ax.Params {
 		t, err := ex.w.ResolveType(b.Type, nil)
 		if err != nil {
@@ -356,6 +363,11 @@ func (ex *Exec) installAxiom(ax *SpecAxiom) {
 		vn := fmt.Sprintf("|%s?%d|", b.Name, ex.qvarCounter)
 		q.names[b.Name] = Value{vn, t}
 		binders = append(binders, "("+vn+" "+ex.c.SortOf(t)+")")
+		if inv := ex.c.typeInvariant(Value{vn, t}); inv != "true" {
+			if bt, ok := t.Underlying().(*types.Basic); !ok || bt.Kind() == types.Float32 || bt.Info()&types.IsUnsigned != 0 {
+				axInvs = append(axInvs, inv)
+			}
+		}
 	}
 	outer := ex.quantFacts
 	var facts []string
@@ -366,6 +378,9 @@ func (ex *Exec) installAxiom(ax *SpecAxiom) {
 	saveObl := ex.oblCalls
 	ex.oblCalls = false
 	body := ex.evalCE(q, ax.Body)
+	if len(axInvs) > 0 {
+		body.T = implies(and(axInvs...), body.T)
+	}
 	ex.oblCalls = saveObl
 	ex.contractMode--
 	ex.guards, ex.pkg = saveGuards, savePkg
@@ -579,6 +594,10 @@ func (w *World) VerifyLemma(l *Lemma, opts VerifyOpts) (res *UnitResult) {
 			} else {
 				p.names[s.Name] = ex.evalCE(p, s.E)
 			}
+		case "call":
+			ex.subsStack = append(ex.subsStack, s.E.Subs)
+			ex.evalMulti(p, s.E.Go)
+			ex.subsStack = ex.subsStack[:len(ex.subsStack)-1]
 		case "witness":
 			val := ex.evalCE(p, s.E)
 			wc := ctx.Const("w:"+s.Name, ctx.SortOf(val.Ty))
